@@ -26,6 +26,9 @@ func (m *patternMatcher) reset(si int) {
 
 func (m *patternMatcher) find() []Capture {
 	for si := m.si; si <= len(m.s); si++ {
+		// Each start offset tried costs one unit, so that a failing scan of the
+		// subject is billed in proportion to its length.
+		m.consumeBudget()
 		m.reset(si)
 		if captures := m.matchToEnd(); captures != nil {
 			return captures
